@@ -7,7 +7,8 @@ from ..lbgen import STRATS
 
 ID = "C03"
 MODULES = ["Helios.Props.C03", "Helios.Props.C12", "Helios.Props.Facts"]
-THEOREMS = ["Helios.LB.recovers", "Helios.CB.breaker_gate_opens", "Helios.LB.cbGate_admits",
+THEOREMS = ["Helios.LB.recovers", "Helios.LB.recovers_by_time", "Helios.CB.breaker_gate_opens", "Helios.LB.cbGate_admits",
+            "Helios.LB.rlGate_admits",
             "Helios.LB.conserved_run", "Helios.LB.gauges_zero_when_idle",
             "Helios.Locks.lockorder_sound", "Helios.Facts.lock_order_ranked", "Helios.Facts.no_callback_under_lock",
             "Helios.Facts.timeouts_set"]
